@@ -131,7 +131,8 @@ theorem decode_ok {c : Codec} {bs : Bytes} {vs : List Val} (h : decode c bs = .o
 
 /-! ### what the generated tables must look like for the typed wrappers (checked against today's source) -/
 
-theorem tables_shape :
+/-- what today's generated tables must look like -/
+def TablesShape : Prop :=
     shapes snaclMarshal.items = shapes snaclUnmarshal.items ∧
     shapes snaclMarshal.items = [(2, snaclKeySize), (2, 32), (1, 8), (1, 8), (1, 8)] ∧
     snaclMarshalOffsets = snaclUnmarshalOffsets ∧
@@ -146,7 +147,9 @@ theorem tables_shape :
     shapes uint32ToBytes.items = [(1, 4)] ∧ guardOk uint32ToBytes = true ∧
     shapes MW.Gen.KsCodec.putVersion.items = [(0, 1)] ∧
     (u32ReadersShape && u32WritersShape && versionShape && prefixScanShape && accountInfoShape && internalFirstShape) = true ∧
-    accountMASS = 0 := by decide
+    accountMASS = 0
+
+theorem tables_shape : TablesShape := by unfold TablesShape; decide
 
 /-! ### little-endian uint32 values (account usage, coin type, child counters) -/
 
